@@ -311,8 +311,9 @@ class Exec:
         if self.record:
             self.trace.append((real_canon(), obs))
 
-    def check_stack(self, what="", **extra):
+    def check_stack(self, what="", site=None, **extra):
         S, h = G.STACK, self.handles
+        extra["site"] = site
         if G.interpreter._STACK is not S:
             self.fail(what + "stack-rebound", "interpreter._STACK was rebound to another list", **extra)
         if len(S) != len(h):
@@ -391,7 +392,7 @@ class Exec:
                 return pos + 1
             self.model.leave(1)
             self.handles.pop()
-            self.check_stack(by_exception=True, left=ref.sym_kind(sym), entered_as=e[0])
+            self.check_stack(site="Interpretation.__exit__", by_exception=True, left=ref.sym_kind(sym))
             if tgt is None:
                 self.fail("unexpected-exception", "%s: %s" % (type(ex).__name__, ex), site="unexpected-exception")
             if tgt < level:
@@ -404,13 +405,13 @@ class Exec:
             self.fail(
                 "exception-swallowed",
                 "an exception raised inside the block did not propagate out of it (__exit__ returned truthy?)",
+                site="Interpretation.__exit__",
                 by_exception=True,
                 left=ref.sym_kind(sym),
-                entered_as=e[0],
             )
         self.model.leave(1)
         self.handles.pop()
-        self.check_stack(by_exception=False, left=ref.sym_kind(sym), entered_as=e[0])
+        self.check_stack(site="Interpretation.__exit__", by_exception=False, left=ref.sym_kind(sym))
         newpos, by_exit = st["result"]
         if by_exit:
             self.complete("exit")
@@ -612,7 +613,8 @@ def outcome(x, events, phase):
         f = x.failure
         last = x.cur[1]
         feats = _features(x)
-        feats["event"] = last[0]
+        if f.site != "Interpretation.__exit__":
+            feats["event"] = last[0]
         return core.violation(
             key,
             f.site,
